@@ -121,6 +121,7 @@ class Batch:
                 timer.cancel()
             last_begin = None
             last_done = None
+            last_sut = ""
             done = False
             tail = []
             for line in out.splitlines():
@@ -130,6 +131,9 @@ class Batch:
                 if t == "B":
                     _, i, seed = line.split()[:3]
                     last_begin = (int(i), int(seed))
+                    last_sut = ""
+                elif t == "U":
+                    last_sut = line[2:].strip()
                 elif t == "R":
                     f = line.split()
                     with self.lock:
@@ -148,7 +152,7 @@ class Batch:
                     f = head.split()
                     v = Violation(index=int(f[1]), seed=int(f[2]), props=f[3].split(","), cls=f[4],
                                   facts=facts, kind="oracle", build=self.cfg, engine=self.engine,
-                                  profile=self.profile, san=self.san)
+                                  profile=self.profile, san=self.san, sut=last_sut)
                     with self.lock:
                         self.runs += 1
                         self.violations.append(v)
@@ -188,7 +192,7 @@ class Batch:
                 cls, what = ("hang", "killed after time limit") if p.returncode == -9 else (cls, what)
             v = Violation(index=last_begin[0], seed=last_begin[1], props=["CRASH"], cls=cls, facts=what,
                           kind="crash", build=self.cfg, engine=self.engine, profile=self.profile,
-                          stderr=(err or "")[-3000:], san=self.san)
+                          stderr=(err or "")[-3000:], san=self.san, sut=last_sut)
             with self.lock:
                 self.runs += 1
                 self.violations.append(v)
